@@ -479,6 +479,20 @@ def check(chk: Check) -> None:
                     if repl is not None and not _is_text(repl):
                         problems.append('`%s`: the replacement `%s` comes from the program and may be a lambda; %s calls it with a '
                                         'regex Match object, which the lambda can store or return' % (e.text(), show(repl), f[2]))
+                # flag words of the regex engine are bit sets: combined with + (or sum) a repeated letter carries into the next bit,
+                # and the bits next to the ordinary flags include DEBUG (prints the parsed pattern to stdout)
+                if isinstance(f, tuple) and f[:2] == ('ref', 'ext') and f[2].startswith(('regex.', 're.')):
+                    fl = dict(freeze(e.kwargs)).get('flags')
+
+                    def arithmetic(t):
+                        if isinstance(t, tuple) and t:
+                            if t[:2] == ('binop', '+') or (t[:1] == ('call',) and t[2] in (('ref', 'builtin', 'sum'), ('ref', 'ext', 'math.fsum'), ('ref', 'ext', 'operator.add'))):
+                                return True
+                            return any(arithmetic(x) for x in t)
+                        return False
+                    if fl is not None and arithmetic(fl):
+                        problems.append('`%s`: the flags argument is added up (`%s`), not or-ed: repeating a flag letter yields other flags, '
+                                        'among them the engine\'s DEBUG flag, which prints to stdout' % (e.text()[:60], show(fl)[:80]))
                 if isinstance(f, tuple) and f and f[0] == 'param':
                     for a in freeze(e.args):
                         kk = ks.kind(a)
